@@ -15,6 +15,32 @@ Enumerated:
   A/D/F/S  the aliasing / data / function / statement layers of the shared program enumerator.
   churn  every statement and every ordered pair of statements as a loop body whose values die each
      iteration, run with K=64 and K=512 iterations: the peak number of live objects must not grow.
+  P  value shapes, arrays: array-producing operation (literal, array_new + array_push, sized array_new fill, push in a
+     for loop, map with the identity / with a constructor, filter, user-level concatenation, array_remove_at /
+     array_set / array_pop results, array_slice of a longer literal, element-wise + of string arrays array+scalar /
+     scalar+array / array+array, element-wise int arithmetic)
+       x element kind (string built at run time, string literal, nested array, struct with a string field, struct
+         holding a struct, struct holding a union, closure capturing a string, tuple, union, int as control)
+       x derived value (alias, array_slice windows all / head / tail / middle / empty, map identity, filter all / none,
+         concatenation with itself, through a temporary outer array, element-wise + in its three forms)
+       x which of the two dies first and how (derived dies in a callee frame, source dies in a callee frame, derived /
+         source variable overwritten, source never held by anything but the operand stack, both alive as control)
+       x array length (3 in the quick tier; 0, 1, 3, 9 = beyond the initial capacity of 8 in the thorough tier);
+     after the death: allocation churn of the same size classes, then EVERY element of what remains is read and
+     printed: the printed lines must be the values the case built (computed here in Python).
+  T  value shapes, access on a value nothing else references: access form (struct field / its string neighbour,
+     field of a nested struct, the nested struct itself, tuple element 0 / 1, union field bound by a match in both
+     variants, first / last element of the array returned by every producer of layer P, array_pop, map_get on a
+     returned hashmap, call of a returned closure)
+       x payload kind (as above)
+       x holder (result of a call = temporary, constructor expression in place, local variable that stays alive =
+         control with a second read, parameter, local of a callee frame that is dead when the value is read)
+       x sink (typed let, array literal, argument of a call),
+     followed by the same churn and a read of the extracted value.
+  leak  every P and T case as the body of a loop of its own (16 and 128 calls, fresh seeds per call and per case): the
+     number of objects it leaves behind must not depend on the number of calls.
+Combinations the front end cannot type are excluded by explicit rules (t_supported, kinds of PRODUCERS / DERIVED /
+ACCESS), never by trial: a P / T program that does not compile is a harness error.
 """
 import itertools
 import os
@@ -544,8 +570,18 @@ ACCESS = {
     "hm_get":   (("str",), "HashMap<string, string>", "(mkhm {s})", "(map_get {E} \"k\")", "k", lambda k, i: k.py(i), (), None),
     "call":     (("clo",), "fn(int) -> int", "(mkcloi {s})", "({E} 7)", "int", lambda k, i: str(100 * (len(_S(i)) + 1) + len(_S(i)) + 7), (), ("temp", "var", "frame")),
 }
+# the holder written as a constructor expression in place (struct / tuple / union literal) instead of a call result
+CTOR = {
+    "field":    "H_{k} { pad: {s}, v: {mk}, tail: (+ \"tail-\" (int_to_string {s})) }",
+    "tail":     "H_{k} { pad: {s}, v: {mk}, tail: (+ \"tail-\" (int_to_string {s})) }",
+    "nested":   "N_{k} { h: (mkh_{k} {s}), z: (+ \"zed-\" (int_to_string {s})) }",
+    "nested_z": "N_{k} { h: (mkh_{k} {s}), z: (+ \"zed-\" (int_to_string {s})) }",
+    "inner":    "N_{k} { h: (mkh_{k} {s}), z: (+ \"zed-\" (int_to_string {s})) }",
+    "tup0":     "({mk}, {s})",
+    "tup1":     "({s}, {mk})",
+}
 # element of an array returned by every array producer: filled in by t_cases (access "elem0:<producer>" / "elemN:<producer>")
-HOLDERS = ("temp", "var", "param", "frame")
+HOLDERS = ("temp", "ctor", "var", "param", "frame")
 SINKS = ("let", "arr", "arg")
 
 
@@ -601,7 +637,9 @@ def t_case(name, aname, kname, holder, sink, seed):
     if sink == "arg":
         pre.append("fn idr_%s(y: %s) -> %s { return y }\n" % (name, RT, RT))
     mk_i = sub(maker, sd="i")
-    if holder == "temp":
+    if holder == "ctor":
+        body += access(sub(CTOR[aname], sd="i").replace("{mk}", k.mk("i")), "i")
+    elif holder == "temp":
         body += access(mk_i, "i")
     elif holder == "var":
         body += ["let h: %s = %s" % (HT, mk_i)] + access("h", "i")
@@ -657,6 +695,8 @@ def t_cases(tier):
                 continue
             for holder in HOLDERS:
                 if holders is not None and holder not in holders:
+                    continue
+                if holder == "ctor" and aname not in CTOR:
                     continue
                 for sink in SINKS:
                     if aname.startswith("match") and sink != "let":
@@ -1145,6 +1185,15 @@ def run(tier):
         "freed memory is recognised through AddressSanitizer poisoning (quarantine default 256 MB, far above what these programs allocate)",
         "audit at every instruction boundary (hook H1); states inside one instruction are not instruction boundaries",
         "heap op alphabet of %d statements, sequences <= %s; enumerator layers A/D/F/S; churn: %d loop bodies at 64 and 512 iterations" % (len(OPS), "2 (+3 over a 12-statement core)" if tier == "quick" else "3 (+4 over a 9-statement core)", len(cseqs)),
+        "value shapes P: %d array producers x %d element kinds x %d derived values x %d death orders x lengths %s = %d cases (element-wise forms only for the kinds they are typed for); "
+        "T: %d access forms (%d fixed + first/last element of every producer's result) x kinds x %d holders x %d sinks = %d cases after removing what the front end cannot type"
+        % (len(PRODUCERS), len(KINDS), len(DERIVED), len(ORDERS), "3" if tier == "quick" else "0,1,3,9", npc, len(ACCESS) + 2 * len(PRODUCERS), len(ACCESS), len(HOLDERS), len(SINKS), ntc),
+        "value shapes: every case prints every element / the extracted value after allocation churn; the %d printed lines are compared with values computed in Python from the case's seed (string contents encode the seed); "
+        "the runs are ASan runs, so a read of freed memory aborts rather than printing other data - the comparison additionally catches values that are valid objects but the wrong ones" % vlines,
+        "not expressible in the accepted language, hence not enumerated: array_concat (unknown to the type checker; a user-level push loop stands in), range as a value (only the range of a for loop; "
+        "the loop-built array stands in), `(at v j)` / array_pop / tuple access yielding a union (typed as struct), a closure as a call argument or as the element of an array returned by a call, "
+        "`(f x).0` outside an array literal (typed int), field access on `(at v j)` without a typed let",
+        "leak family: %d loop bodies at %d and %d calls; seeds of different cases are disjoint so that the intern table cannot hide a leak by finding an already leaked string" % (ljudged, LK[0], LK[1]),
     ]
     if total_audits < 100000 or maxreach < 8 or len(mods) < 20:
         raise common.HarnessError("vacuous exploration: audits=%d maxreach=%d modules=%d" % (total_audits, maxreach, len(mods)))
@@ -1162,19 +1211,33 @@ def replay(path):
         _s, out, rc, msg = _compile((os.path.join(path, "program.nano"), os.path.join(work, "p.nvm")))
         if rc != 0:
             print("program no longer compiles:", msg); return 2
-        files, rc, o, e = _probe(("audit", 3000000, [out]))
+        shaped = os.path.exists(os.path.join(path, "expected.txt"))
+        files, rc, o, e = _probe(("auditout" if shaped else "audit", 3000000, [out]))
         print(o[-3000:]); print(e[-3000:])
         res, fails, crashes = parse(o)
         bad = bool(fails or crashes)
+        if shaped:      # value-shape case: what it printed against what it must print
+            got = [l for l in _read(out + ".out").split("\n")]
+            want = open(os.path.join(path, "expected.txt")).read().split("\n")
+            while got and got[-1] == "":
+                got.pop()
+            while want and want[-1] == "":
+                want.pop()
+            if got != want:
+                print("printed:", got); print("must print:", want)
+                bad = True
     else:
-        peaks = []
-        for K in (64, 512):
-            _s, out, rc, msg = _compile((os.path.join(path, "program_K%d.nano" % K), os.path.join(work, "c%d.nvm" % K)))
-            files, rc, o, e = _probe(("live", 50000000, [out]))
+        import glob
+        progs = sorted(glob.glob(os.path.join(path, "program_K*.nano")), key=lambda q: int(re.search(r"_K(\d+)", q).group(1)))
+        peaks, finals = [], []
+        for q in progs:
+            _s, out, rc, msg = _compile((q, os.path.join(work, os.path.basename(q)[:-5] + ".nvm")))
+            files, rc, o, e = _probe(("live", 400000000, [out]))
             print(o[-500:])
             res, _f, crashes = parse(o)
             peaks.append(res[out]["peak"] if out in res else -1)
-        bad = peaks[1] > peaks[0] or -1 in peaks
+            finals.append(res[out]["final"] if out in res else -1)
+        bad = len(progs) != 2 or peaks[1] > peaks[0] or finals[1] > finals[0] or -1 in peaks
     if bad:
         print("VIOLATION property=C14 replay=%s" % path)
         return 1
